@@ -16,7 +16,8 @@ PROPERTY = 'C17'
 LEVEL = 'exploration'
 RULE = ('requests selected by a pre-pass: location() at reads of Hypothesis programs (profiles c01/c02) and real files whose answer has '
         '>= 2 alternatives, location/assist on C06 hierarchies (self-assigned attributes in several classes, module members) and the '
-        'C04 three-module project, plus whole-file lint of the same sources; every batch is answered in k fresh interpreters (k = 4 '
+        'C04 project modules, Hypothesis sources whose receiver is bound on several paths to instances of different classes sharing '
+        'attribute names (attributes assigned through self, an alias, a closure and a module-level object in interleaving places), plus whole-file lint of the same sources; every batch is answered in k fresh interpreters (k = 4 '
         'quick, 8 thorough) with different PYTHONHASHSEED values and different amounts of prior allocation, twice per process. '
         'Oracle: serialised results identical across all runs; alternatives of one name in ascending source position. Non-trivial '
         'request: >= 3 alternatives or alternatives from >= 2 kinds of construct; distinct by request.')
@@ -58,6 +59,84 @@ def select_program_requests(seed, n, sh):
         if picked:
             reqs.append(({'kind': 'lint', 'src': src, 'filename': fn, 'roots': [suppview.FIXTURES]}, False, 0))
     test = hseed(seed)(core.hyp_settings(n, shrink=False)(given(st.one_of(programs('c01'), programs('c02')))(prop)))
+    test()
+    return reqs
+
+
+def select_receiver_requests(seed, n):
+    """Hypothesis sources in which a receiver is bound on several paths to instances of DIFFERENT classes that share
+    attribute names, and attributes are assigned through self / an alias / a closure / a module-level object in
+    interleaving places: location and assist on receiver.attr (the alternative chosen or listed must not depend on the
+    process), whole-file lint."""
+    from hypothesis import given, seed as hseed, strategies as st
+    reqs = []
+    fn = suppview.filename_for(False)
+    KL = ['Csv', 'Json', 'Yaml', 'Xml', 'Ini']
+    METHS = ['dump', 'load', 'name']
+
+    @st.composite
+    def sources(draw):
+        nk = draw(st.integers(2, 5))
+        lines = ['import os', 'c = d = e = os.environ.get("x")']
+        has = {}
+        for K in KL[:nk]:
+            lines.append('class %s(object):' % K)
+            lines.append('    kind = %r' % K)
+            ms = draw(st.lists(st.sampled_from(METHS), min_size=1, max_size=3, unique=True))
+            has[K] = set(ms) | {'kind'}
+            shape = draw(st.sampled_from(['plain', 'closure', 'alias', 'none']))
+            if shape != 'none':
+                has[K].add('state')
+                lines += ['    def __init__(self, arg=None):', '        self.state = 1']
+                if shape == 'closure':
+                    lines += ['        def reset():', '            self.state = 2', '            return self']
+                elif shape == 'alias':
+                    lines += ['        me = self', '        me.state = 2']
+                lines.append('        self.state = 3')
+            for m in ms:
+                if draw(st.booleans()):
+                    has[K].add('state')
+                    lines += ['    def %s(self):' % m, '        self.state = %r' % m, '        return self']
+                else:
+                    lines += ['    def %s(self):' % m, '        return self']
+        ks = draw(st.permutations(KL[:nk]))[:draw(st.integers(2, nk))]
+        form = draw(st.sampled_from(['if', 'try', 'loop', 'func']))
+        ind = ''
+        if form == 'func':
+            lines.append('def pick(c, d):')
+            ind = '    '
+        if form in ('if', 'func'):
+            for i, K in enumerate(ks):
+                kw = 'if c == %d:' % i if i == 0 else ('elif d == %d:' % i if i < len(ks) - 1 else 'else:')
+                lines += [ind + kw, ind + '    w = %s()' % K]
+        elif form == 'try':
+            lines += ['try:', '    w = %s()' % ks[0]]
+            for K in ks[1:]:
+                lines += ['except %s:' % ('ValueError' if K != ks[-1] else 'Exception'), '    w = %s()' % K]
+        else:
+            lines += ['w = %s()' % ks[0], 'for step in [1, 2]:', '    if step == c:', '        w = %s()' % ks[1]]
+            for K in ks[2:]:
+                lines += ['    elif step == d:', '        w = %s()' % K]
+        if form == 'func':
+            lines += ['    return w', 'w = pick(c, d)']
+        common = sorted(set.intersection(*[has[K] for K in ks]))
+        attr = draw(st.sampled_from(common))
+        probes = []
+        lines.append('print(w.%s)' % attr)
+        probes.append(('location', len(lines), len('print(w.%s' % attr)))
+        probes.append(('assist', len(lines), len('print(w.')))
+        K = ks[0]
+        lines += ['obj = %s()' % K, 'obj.state = 10', 'def conf(o=obj):', '    obj.state = 11', '    o.state = 12', 'obj.state = 13', 'print(obj.state, obj.dump, w.state)']
+        probes.append(('location', len(lines), len('print(obj.state')))
+        probes.append(('location', len(lines), len('print(obj.state, obj.dump, w.state')))
+        return '\n'.join(lines) + '\n', probes, len(ks)
+
+    def prop(args):
+        src, probes, nk = args
+        for kind, line, col in probes:
+            reqs.append(({'kind': kind, 'src': src, 'pos': [line, col], 'filename': fn, 'roots': [suppview.FIXTURES]}, True, nk))
+        reqs.append(({'kind': 'lint', 'src': src, 'filename': fn, 'roots': [suppview.FIXTURES]}, False, 0))
+    test = hseed(seed)(core.hyp_settings(n, shrink=False)(given(sources())(prop)))
     test()
     return reqs
 
@@ -198,6 +277,8 @@ def w_batch(job):
         elif kind == 'files':
             rnd = random.Random(seed)
             reqs = select_file_requests(corpus.sample(seed, n, include_repo=(seed % 2 == 0), max_bytes=60000), rnd)
+        elif kind == 'receivers':
+            reqs = select_receiver_requests(seed, n)
         else:
             reqs = fixed_requests(tmp)
         if not reqs:
@@ -243,6 +324,7 @@ def run(run):
     k = run.pick(4, 8)
     jobs = [('fixed', 0, 0, k)]
     jobs += [('programs', core.derive_seed(run.seed, 'c17p', i), run.pick(60, 600), k) for i in range(run.pick(3, 6))]
+    jobs += [('receivers', core.derive_seed(run.seed, 'c17r', i), run.pick(40, 400), k) for i in range(run.pick(2, 4))]
     jobs += [('files', core.derive_seed(run.seed, 'c17f', i), run.pick(12, 120), k) for i in range(run.pick(3, 6))]
     run.pmap(w_batch, jobs, procs=4)
 
@@ -257,7 +339,7 @@ def replay(case):
             # roots of the fixed batch were temporary: recreate them
             fixed_requests(tmp)
             req['roots'] = [tmp]
-            req['filename'] = os.path.join(tmp, os.path.basename(req['filename']))
+            req['filename'] = os.path.join(tmp, os.path.relpath(req['filename'], case['roots'][0]))
         outs = run_batch([(req, True, 0)], 6, tmp, 'replay')
         answers = [o[0] for o in outs]
         out = []
